@@ -64,7 +64,7 @@ def cases(ctx):
         vs = []
         for j in range(nvars):
             k = rng.randint(0, nd)
-            vs.append({"name": "v%d" % j, "dims": rng.sample(dims, k), "dtype": rng.choice(["float", "float", "int", "complex", "bool", "str", "int32"]),
+            vs.append({"name": "v%d" % j, "dims": rng.sample(dims, k), "dtype": rng.choice(["float", "float", "int", "complex", "bool", "str", "int32", "timedelta", "datetime"]),
                        "nan": rng.choice(["none", "some", "all", "none"])})
         attrs = {}
         for k in range(rng.randint(0, 4)):
@@ -106,6 +106,14 @@ def build(case):
             x = rng.normal(size=shape) + 1j * rng.normal(size=shape)
         elif dt == "bool":
             x = rng.integers(0, 2, size=shape).astype(bool)
+        elif dt == "timedelta":
+            # durations (how long each run took): numpy's timedelta64, with missing ones (NaT) where the pattern says so
+            x = (rng.integers(1, 10 ** 6, size=shape) * 750).astype("timedelta64[ms]").astype("timedelta64[ns]")
+            if v["nan"] != "none" and x.size:
+                x = np.array(x)
+                x[rng.random(size=shape) < 0.3] = np.timedelta64("NaT")
+        elif dt == "datetime":
+            x = (np.datetime64("2020-01-01", "ns") + (rng.integers(1, 10 ** 6, size=shape) * 10 ** 9).astype("timedelta64[ns]"))
         else:
             x = np.array(["s%d" % i for i in rng.integers(0, 50, size=int(np.prod(shape)) if shape else 1)]).reshape(shape) \
                 if shape else np.array("s7")
